@@ -98,6 +98,7 @@ Definition emit_instruction (m : mnemonic) (f : form) (v : Z) (cur : option Z) :
       else inr TooFar
     else inl value in
   match value' with
+  | inr TooFar => (branch_too_far_bytes, Some TooFar)   (* the two bytes are still occupied, the error is raised *)
   | inr e => ([], Some e)
   | inl value =>
       match get_opcode_bytes m a sfx value with
